@@ -5,6 +5,7 @@ import Driver.Storage
 import Driver.Table
 import Driver.Codec
 import Driver.Handler
+import Driver.Node
 open Btdht Btdht.Driver
 
 /-- Generic loop for a stateful engine: one op per stdin line, one canonical line out. -/
@@ -28,4 +29,5 @@ def main (args : List String) : IO UInt32 := do
   | ["table"] => loopS stdin stdout tableStep {}; return 0
   | ["codec"] => loopS stdin stdout (stateless codecStep) (); return 0
   | ["handler"] => loopS stdin stdout handlerStep {}; return 0
+  | ["node"] => loopS stdin stdout nodeStep {}; return 0
   | _ => IO.eprintln "usage: btdht_model <engine>"; return 2
